@@ -449,7 +449,7 @@ def inline_body_aggregate(ctx):
     st.assume(lnS(eqv(agg)) == 1, ln(bnd(agg)) == 0)
     # normal form (C05): #count has been rewritten to #sum+
     st.assume(A.BodyAggregate_function(agg) != F["Count"], A.BodyAggregate_function(atom.term) != F["Count"])
-    ctx.assume_note("preconditions: the rule has exactly one body aggregate, with one `=` guard and no other bound, and its value variable is an argument of the head (all established by is_single before the call); #count does not occur (normal form, C05)")
+    ctx.assume_note("preconditions: the rule has exactly one body aggregate, with one `=` guard and no other bound, and its value variable is an argument of the head -- these are the postconditions of is_single, proved in C15.is_single (the call chain replace_single_rule_for_agg -> is_single -> replace_inside_agg -> inline_body_aggregate itself is not under contract); #count does not occur (normal form, C05)")
     # literal_predicate: uninterpreted list of signed predicates of a literal
     SP_ = ("rec", "SignedPredicate")
     LP = ex.ufunc("literal_predicates", [m.AST], m.sort(("list", SP_)))
@@ -721,3 +721,4 @@ def is_single(ctx):
             ctx.oblige(f"post-{nm}#{n}", s, g, replay=FB15)
     ctx.cover("some-candidate-path", [z3.BoolVal(n_pos > 0)])
     ctx.inputs.clear()
+
